@@ -256,6 +256,35 @@ def gen_container(cls, rng, tier):
                 steps.append("%s %d" % (rng.choice(qs), g))
         steps.append("snap")
         cases.append(Case("kr%s%d" % (cls, ci), cls, steps, dict(kind="random-container-history")))
+    # twins: several live node objects share a key (rejected duplicates, members replaced after remove while the old
+    # object is still linked); connect / try_connect / disconnect / lookups between all of them, then the views
+    for ci in range(1500 if tier == "thorough" else 120):
+        n = rng.randint(3, 7)
+        pool = rng.sample(range(1, 30), rng.randint(2, 3))
+        ks = [rng.choice(pool) for _ in range(n)]
+        steps = ["new %d %d" % (k, rng.randint(-3, 3)) for k in ks] + [rng.choice(GNEW)]
+        steps += ["gins 0 %d" % u for u in range(n)]
+        for j in range(rng.randint(10, 40)):
+            r = rng.random()
+            u, v = rng.randrange(n), rng.randrange(n)
+            k = ks[rng.randrange(n)]
+            if r < 0.25:
+                steps.append("con %d %d %d" % (u, v, rng.randint(0, 40)))
+            elif r < 0.50:
+                steps.append("try %d %d %d" % (u, v, rng.randint(0, 40)))
+            elif r < 0.70:
+                # (no disconnect / isolate here: removing by key among same-key neighbours is outside C01-C03's proviso
+                # of distinct keys and the model does not follow the implementation there)
+                steps.append("qry %d %d" % (u, k))
+            elif r < 0.78:
+                steps += ["grem 0 %d" % k, "gins 0 %d" % rng.choice([i for i in range(n) if ks[i] == k])]
+            elif r < 0.84:
+                steps.append("gins 0 %d" % u)
+            else:
+                qs = ["glen", "gvec", "gorph", "gdot"] + (["groots", "gleaves"] if cls == "D" else [])
+                steps.append("%s 0" % rng.choice(qs))
+        steps.append("snap")
+        cases.append(Case("kt%s%d" % (cls, ci), cls, steps, dict(kind="same-key-twins-history")))
     return cases
 
 
@@ -416,6 +445,35 @@ def gen_roundtrip(cls, rng, tier):
         for fmt in ("json", "cbor"):
             steps += ["gser 0 %s" % fmt, "grt 0 %s" % fmt]
         cases.append(Case("rtR%s%d" % (cls, i), cls, steps, dict(kind="random-graph-roundtrip", nodes=g.n, edges=len(g.edges))))
+    # graphs with a history: parallel edges made from both ends, self-loops, then disconnect / isolate / refused try_connect /
+    # reconnect, and only then the round trip (decided against the implementation's own snapshot taken just before)
+    for i in range(2000 if tier == "thorough" else 150):
+        n = rng.randint(2, 5)
+        ks = rng.sample(range(1, 60), n)
+        steps = ["new %d %d" % (k, rng.randint(-5, 5)) for k in ks]
+        for j in range(rng.randint(3, 14)):
+            u, v = rng.randrange(n), rng.randrange(n)
+            steps.append("con %d %d %d" % (u, v, rng.randint(0, 9)))
+            if rng.random() < 0.4:
+                steps.append("con %d %d %d" % (v, u, rng.randint(0, 9)))
+        for j in range(rng.randint(1, 6)):
+            r = rng.random()
+            u, v = rng.randrange(n), rng.randrange(n)
+            if r < 0.55:
+                steps.append("dis %d %d" % (u, ks[v]))
+            elif r < 0.65:
+                steps.append("iso %d" % u)
+            elif r < 0.8:
+                steps.append("try %d %d %d" % (u, v, rng.randint(0, 9)))
+            else:
+                steps.append("con %d %d %d" % (u, v, rng.randint(0, 9)))
+        steps += ["snap", "gnew"]
+        order = list(range(n))
+        rng.shuffle(order)
+        steps += ["gins 0 %d" % u for u in order]
+        for fmt in ("json", "cbor"):
+            steps += ["gser 0 %s" % fmt, "grt 0 %s" % fmt]
+        cases.append(Case("rtM%s%d" % (cls, i), cls, steps, dict(kind="mutated-graph-roundtrip", nodes=n)))
     return cases
 
 
@@ -429,10 +487,37 @@ def oracle_roundtrip(case, obs):
         t = s.split()
         if t[0] == "gins":
             members.setdefault(int(t[1]), set()).add(int(t[2]))
+    mutated = any(s.split()[0] in ("dis", "iso", "try") for s in case.steps)
+    before = None
     for (si, text) in obs:
         st = case.steps[si]
         if text.startswith("panic"):
             return "step %d `%s` panicked" % (si, st)
+        if st == "snap":
+            before = nc.parse_snap(text)
+        if st.startswith("grt") and mutated:
+            # the graph has a history of removals: the reference is the implementation's own snapshot before serialising
+            mem = members.get(int(st.split()[1]), set())
+            if before is None or len(mem) != len(before):
+                continue
+            order, rest = parse_ord(text)
+            if order is None or not rest.startswith("de ok"):
+                return "step %d `%s`: round trip failed: %s" % (si, st, text[:80])
+            back = parse_gsnap(rest[5:], cls)
+            if back is None:
+                return "step %d: a key occurs twice in the rebuilt graph" % si
+            if sorted(back) != sorted(nd["key"] for nd in before):
+                return "step %d `%s`: keys after the round trip %s, before %s" % (si, st, sorted(back), sorted(nd["key"] for nd in before))
+            for nd in before:
+                k = nd["key"]
+                if back[k]["val"] != nd["val"]:
+                    return "step %d: value of node %d changed" % (si, k)
+                if cls == "D":
+                    if back[k]["out"] != nd["out"]:
+                        return "step %d `%s`: outgoing edges of %d after the round trip %s, before %s" % (si, st, k, back[k]["out"], nd["out"])
+                elif sorted(back[k]["adj"]) != sorted(nd["adj"]):
+                    return "step %d `%s`: incident edges of %d after the round trip %s, before %s" % (si, st, k, sorted(back[k]["adj"]), sorted(nd["adj"]))
+            continue
         if st.startswith("grt"):
             mem = members.get(int(st.split()[1]), set())
             if len(mem) != g.n:
